@@ -160,11 +160,40 @@ def r_intern(sh, rep):
     else:
         why = "order %s" % names
     rep.check(ok, "R11-INTERN", "term#Lambda#bind-body-unbind", sh.loc(OI, lam), "the Lambda arm must bind, walk the body, then unbind the same (text, previous unique) key: " + why, sample={"calls": names})
-    # the key is captured before the binder's unique is overwritten
-    s = sh.nsrc(OI, lam["body"])
-    rep.check(s.index("letprevious_unique=parameter_name.unique;") < s.index("parameter_name.unique=self.bind(") if "letprevious_unique=parameter_name.unique;" in s and "parameter_name.unique=self.bind(" in s else False, "R11-INTERN", "term#Lambda#key-before-overwrite", sh.loc(OI, lam), "the previous unique must be read before it is replaced")
-    lk = sh.nsrc(OI, find_method(fj, "CodeGenInterner", "lookup")["body"])
-    rep.check(".get(&key).and_then(|uniques|uniques.last())" in lk and "{*u}else{" in lk, "R11-INTERN", "lookup#innermost", OI, "lookup must return the innermost (last pushed) active binder when one exists")
+    # the key is captured before the binder's unique is overwritten: `let P = <binder>.unique; … <binder>.unique = self.bind(.., P)`
+    okk = False
+    binds = [n for n in walk(lam["body"]) if n["k"] == "Assign" and n["r"]["k"] == "MethodCall" and n["r"]["m"] == "bind" and n["l"]["k"] == "Field" and n["l"]["f"] == "unique"]
+    if binds:
+        tgt = sh.nsrc(OI, binds[0]["l"])
+        key_arg = sh.nsrc(OI, binds[0]["r"]["args"][-1])
+        caps = [n for n in walk(lam["body"]) if n["k"] == "Local" and n["pat"]["k"] == "Ident" and n["pat"]["name"] == key_arg and n.get("init") is not None and sh.nsrc(OI, n["init"]) == tgt]
+        okk = bool(caps) and (caps[0]["s"][0], caps[0]["s"][1]) < (binds[0]["s"][0], binds[0]["s"][1])
+    rep.check(okk, "R11-INTERN", "term#Lambda#key-before-overwrite", sh.loc(OI, lam), "the binder's previous unique must be read into a local before `<binder>.unique = self.bind(.., <that local>)` replaces it: the (text, previous unique) key of bind and unbind is built from it")
+    lf = find_method(fj, "CodeGenInterner", "lookup")
+    calls = [c for c in walk(lf["body"]) if c["k"] == "MethodCall"]
+    gets = [c for c in calls if c["m"] == "get" and "identifiers" in sh.nsrc(OI, c["recv"])]
+    picks = [c["m"] for c in calls if c["m"] in ("last", "first", "nth", "get_mut", "iter", "peek", "pop")]
+    # the only fallback for an unknown key is a fresh unique, and it is taken only when the stack lookup found nothing:
+    # every fresh_unique() call sits in the else-branch / None arm of the test on the lookup result
+    fresh = [c for c in calls if c["m"] == "fresh_unique"]
+    cond_ok = True
+    for fc in fresh:
+        inside = False
+        for n in walk(lf["body"]):
+            if n["k"] == "If" and "else" in n and any(x is fc for x in walk(n["else"])) and not any(x is fc for x in walk(n["then"])):
+                inside = True
+            if n["k"] == "Match":
+                for a in n["arms"]:
+                    h = pat_head(pat_alts(a["pat"])[0])
+                    if (h is None or last(h) == "None") and any(x is fc for x in walk(a["body"])):
+                        inside = True
+            if n["k"] == "MethodCall" and n["m"] in ("unwrap_or_else", "map_or_else", "or_else") and any(x is fc for x in walk(n["args"][0])):
+                inside = True
+        cond_ok = cond_ok and inside
+    others = [n for n in walk(lf["body"]) if n["k"] == "Path" and n["p"] == "previous_unique"]
+    # previous_unique may only be used to build the key, never returned
+    key_only = all(any(x is o for st in walk(lf["body"]) if st["k"] == "Local" and st["pat"]["k"] == "Ident" and st["pat"]["name"] == "key" for x in walk(st["init"])) for o in others)
+    rep.check(len(gets) == 1 and picks == ["last"] and len(fresh) == 1 and cond_ok and key_only, "R11-INTERN", "lookup#innermost", sh.loc(OI, lf), "lookup must return the innermost (last pushed) active binder of the key when one exists, and a fresh unique — nothing derived from the old one — only when none exists (found picks %s, %d fresh_unique call(s), conditional=%s, previous_unique only in the key=%s)" % (picks, len(fresh), cond_ok, key_only), sample={"picks": picks})
     bd = sh.nsrc(OI, find_method(fj, "CodeGenInterner", "bind")["body"])
     rep.check("letunique=self.fresh_unique();self.identifiers.entry(key).or_default().push(unique);unique" in bd, "R11-INTERN", "bind#fresh-push", OI, "bind must push a fresh unique on the key's stack and return it")
     ub = sh.nsrc(OI, find_method(fj, "CodeGenInterner", "unbind")["body"])
